@@ -34,9 +34,10 @@ func vParent(w LevelWriter) Logger {
 	l := Logger{w: w, level: vLevel(), stack: zzverif.Bool()}
 	switch zzverif.Choice(3) {
 	case 1:
-		l.context = append(make([]byte, 0, 1+zzverif.Choice(3)*8), '{')
+		// capacities: tight, small, and the sizes With() itself hands out (500) and around it
+		l.context = append(make([]byte, 0, vCaps[zzverif.Choice(len(vCaps))]), '{')
 	case 2:
-		l.context = append(make([]byte, 0, 32), `{"p":1`...)
+		l.context = append(make([]byte, 0, 32+zzverif.Choice(2)*468), `{"p":1`...)
 	}
 	switch zzverif.Choice(3) {
 	case 1:
@@ -52,6 +53,8 @@ func vParent(w LevelWriter) Logger {
 	}
 	return l
 }
+
+var vCaps = []int{1, 9, 17, 499, 500, 501, 1024}
 
 func vSnapshotBytes(b []byte) []byte { return append([]byte(nil), b...) }
 
